@@ -252,8 +252,11 @@ func newCmap4(cm tables.CmapSubtable4) (cmap4, error) {
 		// some fonts use 0xFFFF for idRangeOff for the last segment
 		if entry.start != 0xFFFF && idRangeOffset != 0 {
 			// we resolve the indexes
-			entry.indexes = make([]tables.GlyphID, entry.end-entry.start+1)
 			indexStart := idRangeOffset/2 + i - segCount
+			if entry.end < entry.start || indexStart < 0 {
+				return nil, errors.New("invalid cmap subtable format 4 segment")
+			}
+			entry.indexes = make([]tables.GlyphID, int(entry.end)-int(entry.start)+1)
 			if len(cm.GlyphIDArray) < 2*(indexStart+len(entry.indexes)) {
 				return nil, errors.New("invalid cmap subtable format 4 glyphs array length")
 			}
